@@ -145,7 +145,8 @@ def props_status(files):
     Returns list of dicts {file, theorem, assumptions, ok}."""
     out = []
     for f in files:
-        path = os.path.join(COQ, "theories", "Props", f)
+        # a bare name is a file of Props/; a name with a directory is relative to theories/
+        path = os.path.join(COQ, "theories", f) if "/" in f else os.path.join(COQ, "theories", "Props", f)
         if not os.path.exists(path):
             out.append({"file": f, "theorem": "(file missing)", "assumptions": "", "ok": False})
             continue
